@@ -182,20 +182,20 @@ def run(tier):
                    ("e1", 3, "E_1", (0, 0, 0), 150), ("rwrt", 4, "G_RWRT", (0, 0, 0), 150)]
         configs_if_differs = [("wr", 2, "A_WR", (1, 1, 1)), ("ww", 2, "A_WW", (1, 1, 1))]
         specs = [
-            ("dfs_a_wr", {"progs": PROGS["A_WR"], "preempt": 4, "max_runs": 12000, "spur": 1, "eintr": 1, "weak": 1, "graph": "wr"}),
-            ("dfs_a_ww", {"progs": PROGS["A_WW"], "preempt": 4, "max_runs": 12000, "spur": 1, "eintr": 1, "weak": 1, "graph": "ww"}),
-            ("dfs_a_wtr", {"progs": PROGS["A_WTR"], "preempt": 4, "max_runs": 12000, "spur": 1, "eintr": 1, "weak": 1, "graph": "wtr"}),
-            ("dfs_wr", {"progs": PROGS["B_1"], "preempt": 3, "max_runs": 12000, "spur": 1, "eintr": 0, "weak": 1}),
-            ("dfs_try", {"progs": PROGS["B_2"], "preempt": 3, "max_runs": 12000, "spur": 1, "eintr": 1, "weak": 1}),
-            ("dfs_wwr", {"progs": PROGS["C_WWR"], "preempt": 3, "max_runs": 12000, "spur": 0, "eintr": 0, "weak": 0}),
-            ("dfs_wrr", {"progs": PROGS["C_WRR"], "preempt": 3, "max_runs": 12000, "spur": 0, "eintr": 0, "weak": 0}),
-            ("dfs_wwrr", {"progs": PROGS["F_WWRR"], "preempt": 2, "max_runs": 12000, "spur": 0, "eintr": 0, "weak": 0}),
-            ("dfs_www", {"progs": PROGS["C_WWW"], "preempt": 3, "max_runs": 8000, "spur": 0, "eintr": 0, "weak": 0}),
-            ("dfs_rwrt", {"progs": PROGS["G_RWRT"], "preempt": 2, "max_runs": 8000, "spur": 0, "eintr": 0, "weak": 0}),
-            ("dfs_wwrt", {"progs": PROGS["G_WWRT"], "preempt": 2, "max_runs": 8000, "spur": 0, "eintr": 0, "weak": 0}),
-            ("cov_rwrt", {"mode": "cover", "progs": PROGS["G_RWRT"], "runs": 4000, "spur": 1, "eintr": 0, "weak": 1}),
-            ("cov_wwrt", {"mode": "cover", "progs": PROGS["G_WWRT"], "runs": 4000, "spur": 1, "eintr": 0, "weak": 1}),
-            ("cov4", {"mode": "cover", "progs": [WAU + RAU, RAU + WAU, TWAU + RAU, RAU + TRAU], "runs": 6000, "spur": 1, "eintr": 1, "weak": 1}),
+            ("dfs_a_wr", {"progs": PROGS["A_WR"], "preempt": 4, "max_runs": 5000, "spur": 1, "eintr": 1, "weak": 1, "graph": "wr"}),
+            ("dfs_a_ww", {"progs": PROGS["A_WW"], "preempt": 4, "max_runs": 5000, "spur": 1, "eintr": 1, "weak": 1, "graph": "ww"}),
+            ("dfs_a_wtr", {"progs": PROGS["A_WTR"], "preempt": 4, "max_runs": 5000, "spur": 1, "eintr": 1, "weak": 1, "graph": "wtr"}),
+            ("dfs_wr", {"progs": PROGS["B_1"], "preempt": 3, "max_runs": 5000, "spur": 1, "eintr": 0, "weak": 1}),
+            ("dfs_try", {"progs": PROGS["B_2"], "preempt": 3, "max_runs": 5000, "spur": 1, "eintr": 1, "weak": 1}),
+            ("dfs_wwr", {"progs": PROGS["C_WWR"], "preempt": 3, "max_runs": 5000, "spur": 0, "eintr": 0, "weak": 0}),
+            ("dfs_wrr", {"progs": PROGS["C_WRR"], "preempt": 3, "max_runs": 5000, "spur": 0, "eintr": 0, "weak": 0}),
+            ("dfs_wwrr", {"progs": PROGS["F_WWRR"], "preempt": 2, "max_runs": 5000, "spur": 0, "eintr": 0, "weak": 0}),
+            ("dfs_www", {"progs": PROGS["C_WWW"], "preempt": 3, "max_runs": 4000, "spur": 0, "eintr": 0, "weak": 0}),
+            ("dfs_rwrt", {"progs": PROGS["G_RWRT"], "preempt": 2, "max_runs": 4000, "spur": 0, "eintr": 0, "weak": 0}),
+            ("dfs_wwrt", {"progs": PROGS["G_WWRT"], "preempt": 2, "max_runs": 4000, "spur": 0, "eintr": 0, "weak": 0}),
+            ("cov_rwrt", {"mode": "cover", "progs": PROGS["G_RWRT"], "runs": 2500, "spur": 1, "eintr": 0, "weak": 1}),
+            ("cov_wwrt", {"mode": "cover", "progs": PROGS["G_WWRT"], "runs": 2500, "spur": 1, "eintr": 0, "weak": 1}),
+            ("cov4", {"mode": "cover", "progs": [WAU + RAU, RAU + WAU, TWAU + RAU, RAU + TRAU], "runs": 3000, "spur": 1, "eintr": 1, "weak": 1}),
             ("rnd4", {"progs": [WAU + RAU, RAU + WAU, TWAU + RAU, RAU + TRAU], "runs": 3000, "spur": 1, "eintr": 1, "weak": 1}),
         ]
     stress = {"threads": 4, "sections": 1500} if tier == "quick" else {"threads": 8, "sections": 10000}
